@@ -101,6 +101,66 @@ def gen_ops(rng, n, length):
     return ops
 
 
+def concurrent_unsub(seed):
+    import random
+    import vsim
+    import refdev
+    res = {}
+
+    def scenario(sim):
+        from nxslib.nxscope import NxscopeHandler
+        from nxslib.proto.parse import Parser
+        r = random.Random(seed)
+        chans = [dict(en=False, type=6, vdim=1, div=0, mlen=0, name="c0")]
+        dev = refdev.RefDevice(chans, flags=3)
+        link = refdev.make_link(sim, dev)
+        nx = NxscopeHandler(link, Parser())
+        nx.connect()
+        nx.ch_enable([0])
+        qs = [nx.stream_sub(0) for _ in range(8)]
+        nx.stream_start()
+        gone = list(range(6))
+
+        def app():
+            for k in gone:
+                vsim.vsleep(r.choice([0.0, 0.001, 0.002, 0.003]))
+                nx.stream_unsub(qs[k])
+        t = vsim.VThread(target=app, name="app")
+        t.start()
+        sent = []
+        for _ in range(30):
+            sent.append(dev.stream_cntr)
+            dev.stream_tick()
+            vsim.vsleep(r.choice([0.0, 0.001]))
+        t.join()
+        vsim.vsleep(3.0)
+        got = []
+        for q in qs:
+            vals = []
+            while not q.empty():
+                vals += [int(x.data[0]) for x in q.get_nowait()]
+            got.append(vals)
+        nx.disconnect()
+        res.update(sent=sent, got=got, gone=gone)
+
+    rr, sim = vsim.run_sim(scenario, seed=seed, preempt=True, real_limit=30.0)
+    if isinstance(rr, BaseException) or sim.errors:
+        return {"key": "concurrent-delivery", "seed": seed, "what": "concurrent sub/unsub while streaming failed: " + repr(rr)
+                + repr([(a, repr(b)) for a, b, _ in sim.errors]), "expected": "-", "observed": "-", "case": f"vsim preempt seed={seed}"}
+    for k, vals in enumerate(res["got"]):
+        want = res["sent"]
+        if k in res["gone"]:
+            ok = vals == want[:len(vals)]            # a prefix: gap-free until the unsubscription
+        else:
+            ok = vals == want
+        if not ok:
+            return {"key": "concurrent-delivery", "seed": seed, "case": f"vsim preempt seed={seed}",
+                    "what": f"queue {k} ({'unsubscribed meanwhile' if k in res['gone'] else 'subscribed throughout'}) received {vals}, "
+                            f"device sent {want} while queues {res['gone']} were being unsubscribed concurrently",
+                    "expected": str(want), "observed": str(vals)}
+    return None
+
+
 class C08(Prop):
     id = "C08"
     lean_module = "NxsModel.Props.C08"
@@ -172,6 +232,23 @@ class C08(Prop):
             return {"key": "empty-group", "what": "an empty group was delivered", "expected": "-", "observed": str(got)}
         return None
 
+    def deep_search(self, rng):
+        """schedules: an application thread unsubscribes / subscribes while the stream thread is fanning out
+        (pre-emption at every lock and queue operation); every queue that stays subscribed must still get a
+        gap-free run"""
+        out = []
+        for seed in range(150):
+            v = concurrent_unsub(seed)
+            if v:
+                out.append(v)
+                break
+        return out
+
+    def replay(self, obj):
+        if obj.get("key") == "concurrent-delivery":
+            return concurrent_unsub(obj["seed"])
+        return self.oracle(obj["case"])
+
     def extra_checks(self, rng, tier, ev):
         """whole sessions under vsim: the reference device streams, real receive + stream threads deliver"""
         import vsim
@@ -228,6 +305,15 @@ class C08(Prop):
                     viol.append({"key": "session-delivery", "what": f"queue of channel {c} received {vals}, device sent {want}",
                                  "expected": str(want), "observed": str(vals)})
         ev["coverage"]["streaming_sessions"] = runs
+        # schedules: unsubscribe concurrently with the fan-out, pre-emption at every lock / queue operation
+        nseeds = 400 if tier == "thorough" else 40
+        base = rng.randrange(1 << 20)
+        for k in range(nseeds):
+            v = concurrent_unsub(base + k)
+            if v:
+                viol.append(v)
+                break
+        ev["coverage"]["concurrent_unsub_schedules"] = nseeds
         return viol[:5]
 
 
